@@ -300,6 +300,7 @@ func c05tGen(tier string, rng *rand.Rand) []tCase {
 		nsets, nrand, npk, allCut = 400, 4000, 600, 700
 	}
 	var cs []tCase
+	main := rng
 	dec := func(class, note, expect string, set, prior []tKV, bs []byte) {
 		cs = append(cs, tCase{Kind: "tdec", Class: "tdec/" + class, Note: note, Expect: expect, Set: set, Prior: prior, Bytes: bs, Probes: tProbesFor(rng, set, prior)})
 	}
@@ -307,8 +308,11 @@ func c05tGen(tier string, rng *rand.Rand) []tCase {
 	for i := 0; i < nsets; i++ {
 		n := i % 9
 		small := i%3 == 0
-		set := tRandSet(rng, n, small)
+		set := tRandSet(main, n, small)
 		bs := tEncode(set)
+		// Encode writes the entries in Go's map iteration order, which differs from run to run: everything that is
+		// drawn per position of these bytes comes from a sub-generator, so that the main stream stays reproducible
+		rng = rand.New(rand.NewSource(main.Int63()))
 		cs = append(cs, tCase{Kind: "tenc", Class: fmt.Sprintf("tenc/n%d/len%d", len(set), bucket(len(bs))), Set: set, Bytes: bs})
 		dec(fmt.Sprintf("valid/n%d/len%d", len(set), bucket(len(bs))), "valid", "roundtrip", set, nil, bs)
 		if i%2 == 0 { // into a set that already holds entries, some under the same keys
@@ -400,6 +404,7 @@ func c05tGen(tier string, rng *rand.Rand) []tCase {
 			dec("flip", fmt.Sprintf("byte %d changed", p), "", set, nil, nb)
 		}
 	}
+	rng = main
 	// --- hand-made encodings around every decision of Decode ---
 	str := func(s string) []byte { return cat([]byte{0x06, byte(len(s))}, []byte(s)) }
 	val := func(v []byte) []byte { return cat([]byte{0x1d, 0x00}, mkCount(len(v)), v) }
@@ -407,52 +412,64 @@ func c05tGen(tier string, rng *rand.Rand) []tCase {
 	hand := []struct {
 		note string
 		bs   []byte
+		exp  string
 	}{
-		{"empty input", []byte{}},
-		{"map head only", []byte{0x08}},
-		{"count 0", hd(0)},
-		{"count 0, trailing bytes", cat(hd(0), []byte{1, 2, 3})},
-		{"count -1, one entry follows", cat([]byte{0x08, 0x00, 0xff}, str("a"), val([]byte("x")))},
-		{"duplicate key: the later entry wins", cat(hd(3), str("a"), val([]byte("1")), str("b"), val([]byte("2")), str("a"), val([]byte("3")))},
-		{"entry without a value at the end", cat(hd(1), str("a"))},
-		{"entry without a value, next key follows", cat(hd(2), str("a"), str("b"), val([]byte("2")))},
-		{"value at tag 2 instead of 1", cat(hd(1), str("a"), []byte{0x2d, 0x00, 0x00, 0x01, 0x78})},
-		{"tag-0 fields between key and value are skipped", cat(hd(1), str("a"), []byte{0x00, 0x07, 0x06, 0x02, 0x41, 0x42, 0x0c}, val([]byte("x")))},
-		{"tag-0 struct between key and value", cat(hd(1), str("a"), []byte{0x0a, 0x00, 0x01, 0x0b}, val([]byte("x")))},
-		{"tag-0 unterminated struct between key and value", cat(hd(1), str("a"), []byte{0x0a, 0x00, 0x01}, val([]byte("x")))},
-		{"value is a LIST", cat(hd(1), str("a"), []byte{0x19, 0x00, 0x01, 0x00, 0x78})},
-		{"value is a string", cat(hd(1), str("a"), []byte{0x16, 0x01, 0x78})},
-		{"SimpleList element head is SHORT", cat(hd(1), str("a"), []byte{0x1d, 0x01, 0x00, 0x01, 0x78})},
-		{"SimpleList element head at tag 1", cat(hd(1), str("a"), []byte{0x1d, 0x10, 0x00, 0x01, 0x78})},
-		{"buffer length as ZeroTag at the end of the input", cat(hd(1), str("a"), []byte{0x1d, 0x00, 0x0c})},
-		{"buffer length 0 written as BYTE 0", cat(hd(1), str("a"), []byte{0x1d, 0x00, 0x00, 0x00})},
-		{"buffer length as SHORT", cat(hd(1), str("a"), []byte{0x1d, 0x00, 0x01, 0x00, 0x02, 0x78, 0x79})},
-		{"buffer length as INT", cat(hd(1), str("a"), []byte{0x1d, 0x00, 0x02, 0x00, 0x00, 0x00, 0x02, 0x78, 0x79})},
-		{"buffer length as LONG", cat(hd(1), str("a"), []byte{0x1d, 0x00, 0x03, 0, 0, 0, 0, 0, 0, 0, 0x02, 0x78, 0x79})},
-		{"buffer length -1", cat(hd(1), str("a"), []byte{0x1d, 0x00, 0x00, 0xff, 0x78})},
-		{"buffer length one more than left", cat(hd(1), str("a"), []byte{0x1d, 0x00, 0x00, 0x03, 0x78, 0x79})},
-		{"buffer length exactly what is left", cat(hd(1), str("a"), []byte{0x1d, 0x00, 0x00, 0x02, 0x78, 0x79})},
-		{"key as STRING4", cat(hd(1), []byte{0x07, 0, 0, 0, 1, 0x61}, val([]byte("x")))},
-		{"key STRING4 length 2^32-1", cat(hd(1), []byte{0x07, 0xff, 0xff, 0xff, 0xff, 0x61}, val([]byte("x")))},
-		{"key is an int", cat(hd(1), []byte{0x00, 0x61}, val([]byte("x")))},
-		{"key at tag 1", cat(hd(1), []byte{0x16, 0x01, 0x61}, val([]byte("x")))},
-		{"key with a two-byte head for tag 0", cat(hd(1), []byte{0xf6, 0x00, 0x01, 0x61}, val([]byte("x")))},
-		{"value with a two-byte head for tag 1", cat(hd(1), str("a"), []byte{0xfd, 0x01, 0x00, 0x00, 0x01, 0x78})},
-		{"first head is a LIST at tag 0", cat([]byte{0x09, 0x00, 0x01}, str("a"), val([]byte("x")))},
-		{"first head at tag 1: not found, the count is read from the same bytes", []byte{0x18, 0x00, 0x01}},
-		{"first head StructEnd", []byte{0x0b, 0x00, 0x01}},
-		{"two-byte head tag 2 (non-canonical): unread steps back one byte", cat([]byte{0xf8, 0x02, 0x00, 0x00, 0x00, 0x01}, str("a"), val([]byte("x")))},
-		{"two-byte head tag 12 (non-canonical): the tag byte is re-read as ZeroTag", cat([]byte{0xf8, 0x0c}, str("a"))},
-		{"two-byte head for tag 0 on the map", cat([]byte{0xf8, 0x00, 0x00, 0x01}, str("a"), val([]byte("x")))},
-		{"map head, count as LONG", []byte{0x08, 0x03, 0, 0, 0, 0, 0, 0, 0, 1}},
-		{"map head, count at tag 1", []byte{0x08, 0x10, 0x01}},
-		{"map head + count 2^31-1, nothing else", []byte{0x08, 0x02, 0x7f, 0xff, 0xff, 0xff}},
-		{"map head + count 2^27, nothing else", []byte{0x08, 0x02, 0x08, 0x00, 0x00, 0x00}},
-		{"count 2^31-1, then keys without values", cat([]byte{0x08, 0x02, 0x7f, 0xff, 0xff, 0xff}, bytes.Repeat(str(""), 40))},
-		{"count 32767 over 3 entries", cat([]byte{0x08, 0x01, 0x7f, 0xff}, str("a"), val(nil), str("b"), val(nil), str("c"), val(nil))},
+		{"empty input", []byte{}, ""},
+		{"map head only", []byte{0x08}, ""},
+		{"count 0", hd(0), ""},
+		{"count 0, trailing bytes", cat(hd(0), []byte{1, 2, 3}), ""},
+		{"count -1, one entry follows", cat([]byte{0x08, 0x00, 0xff}, str("a"), val([]byte("x"))), ""},
+		{"duplicate key: the later entry wins", cat(hd(3), str("a"), val([]byte("1")), str("b"), val([]byte("2")), str("a"), val([]byte("3"))), ""},
+		{"entry without a value at the end", cat(hd(1), str("a")), ""},
+		{"entry without a value, next key follows", cat(hd(2), str("a"), str("b"), val([]byte("2"))), ""},
+		{"value at tag 2 instead of 1", cat(hd(1), str("a"), []byte{0x2d, 0x00, 0x00, 0x01, 0x78}), ""},
+		{"tag-0 fields between key and value are skipped", cat(hd(1), str("a"), []byte{0x00, 0x07, 0x06, 0x02, 0x41, 0x42, 0x0c}, val([]byte("x"))), ""},
+		{"tag-0 struct between key and value", cat(hd(1), str("a"), []byte{0x0a, 0x00, 0x01, 0x0b}, val([]byte("x"))), ""},
+		{"tag-0 unterminated struct between key and value", cat(hd(1), str("a"), []byte{0x0a, 0x00, 0x01}, val([]byte("x"))), ""},
+		{"value is a LIST", cat(hd(1), str("a"), []byte{0x19, 0x00, 0x01, 0x00, 0x78}), ""},
+		{"value is a string", cat(hd(1), str("a"), []byte{0x16, 0x01, 0x78}), ""},
+		{"SimpleList element head is SHORT", cat(hd(1), str("a"), []byte{0x1d, 0x01, 0x00, 0x01, 0x78}), ""},
+		{"SimpleList element head at tag 1", cat(hd(1), str("a"), []byte{0x1d, 0x10, 0x00, 0x01, 0x78}), ""},
+		{"SimpleList element head: two-byte head with tag 2 (an optional lookup would re-read the tag byte as an INT head)", cat(hd(1), str("a"), []byte{0x1d, 0xf0, 0x02, 0x00, 0x00, 0x00, 0x01, 0x78}), ""},
+		{"value head: two-byte head with tag 13 after the key (an optional lookup would re-read the tag byte)", cat(hd(1), str("a"), []byte{0xf0, 0x0d, 0x00, 0x00, 0x01, 0x78}), ""},
+		{"key head: two-byte head with tag 6 (an optional lookup would re-read the tag byte as a STRING1 head)", cat(hd(1), []byte{0xf0, 0x06, 0x01, 0x61}, val([]byte("x"))), ""},
+		{"buffer length as ZeroTag at the end of the input", cat(hd(1), str("a"), []byte{0x1d, 0x00, 0x0c}), ""},
+		{"buffer length 0 written as BYTE 0", cat(hd(1), str("a"), []byte{0x1d, 0x00, 0x00, 0x00}), ""},
+		{"buffer length as SHORT", cat(hd(1), str("a"), []byte{0x1d, 0x00, 0x01, 0x00, 0x02, 0x78, 0x79}), ""},
+		{"buffer length as INT", cat(hd(1), str("a"), []byte{0x1d, 0x00, 0x02, 0x00, 0x00, 0x00, 0x02, 0x78, 0x79}), ""},
+		{"buffer length as LONG", cat(hd(1), str("a"), []byte{0x1d, 0x00, 0x03, 0, 0, 0, 0, 0, 0, 0, 0x02, 0x78, 0x79}), ""},
+		{"buffer length -1", cat(hd(1), str("a"), []byte{0x1d, 0x00, 0x00, 0xff, 0x78}), ""},
+		{"buffer length one more than left", cat(hd(1), str("a"), []byte{0x1d, 0x00, 0x00, 0x03, 0x78, 0x79}), ""},
+		{"buffer length exactly what is left", cat(hd(1), str("a"), []byte{0x1d, 0x00, 0x00, 0x02, 0x78, 0x79}), ""},
+		{"key as STRING4", cat(hd(1), []byte{0x07, 0, 0, 0, 1, 0x61}, val([]byte("x"))), ""},
+		{"key STRING4 length 2^32-1", cat(hd(1), []byte{0x07, 0xff, 0xff, 0xff, 0xff, 0x61}, val([]byte("x"))), ""},
+		{"key is an int", cat(hd(1), []byte{0x00, 0x61}, val([]byte("x"))), ""},
+		{"key at tag 1", cat(hd(1), []byte{0x16, 0x01, 0x61}, val([]byte("x"))), ""},
+		{"key with a two-byte head for tag 0", cat(hd(1), []byte{0xf6, 0x00, 0x01, 0x61}, val([]byte("x"))), ""},
+		{"value with a two-byte head for tag 1", cat(hd(1), str("a"), []byte{0xfd, 0x01, 0x00, 0x00, 0x01, 0x78}), ""},
+		{"first head is a LIST at tag 0", cat([]byte{0x09, 0x00, 0x01}, str("a"), val([]byte("x"))), ""},
+		{"first head at tag 1: not found, the count is read from the same bytes", []byte{0x18, 0x00, 0x01}, ""},
+		{"first head StructEnd", []byte{0x0b, 0x00, 0x01}, ""},
+		{"two-byte head tag 2 (non-canonical): unread steps back one byte", cat([]byte{0xf8, 0x02, 0x00, 0x00, 0x00, 0x01}, str("a"), val([]byte("x"))), ""},
+		{"two-byte head tag 12 (non-canonical): the tag byte is re-read as ZeroTag", cat([]byte{0xf8, 0x0c}, str("a")), ""},
+		{"two-byte head for tag 0 on the map", cat([]byte{0xf8, 0x00, 0x00, 0x01}, str("a"), val([]byte("x"))), ""},
+		{"map head, count as LONG", []byte{0x08, 0x03, 0, 0, 0, 0, 0, 0, 0, 1}, ""},
+		{"map head, count at tag 1", []byte{0x08, 0x10, 0x01}, ""},
+		{"map head + count 2^31-1, nothing else", []byte{0x08, 0x02, 0x7f, 0xff, 0xff, 0xff}, ""},
+		{"map head + count 2^27, nothing else", []byte{0x08, 0x02, 0x08, 0x00, 0x00, 0x00}, ""},
+		{"count 2^31-1, then keys without values", cat([]byte{0x08, 0x02, 0x7f, 0xff, 0xff, 0xff}, bytes.Repeat(str(""), 40)), ""},
+		{"map count as SHORT cut after its first byte (a zero-padded read would give 0)", []byte{0x08, 0x01, 0x00}, "err"},
+		{"map count as INT cut after two bytes", []byte{0x08, 0x02, 0x00, 0x00}, "err"},
+		{"map count as INT cut after one byte", []byte{0x08, 0x02, 0x00}, "err"},
+		{"buffer length as SHORT cut after its first byte", cat(hd(1), str("a"), []byte{0x1d, 0x00, 0x01, 0x00}), "err"},
+		{"buffer length as INT cut after three bytes", cat(hd(1), str("a"), []byte{0x1d, 0x00, 0x02, 0x00, 0x00, 0x00}), "err"},
+		{"key STRING4 length cut after two bytes", cat(hd(1), []byte{0x07, 0x00, 0x00}), "err"},
+		{"key STRING1 announcing 3 bytes, 2 left", cat(hd(1), []byte{0x06, 0x03, 0x61, 0x62}), "err"},
+		{"key STRING4 announcing 2^31+1 bytes", cat(hd(1), []byte{0x07, 0x80, 0x00, 0x00, 0x01, 0x61, 0x62}), "err"},
+		{"count 32767 over 3 entries", cat([]byte{0x08, 0x01, 0x7f, 0xff}, str("a"), val(nil), str("b"), val(nil), str("c"), val(nil)), ""},
 	}
 	for _, h := range hand {
-		dec("hand", h.note, "", nil, nil, h.bs)
+		dec("hand", h.note, h.exp, nil, nil, h.bs)
 		dec("hand-into-prior", h.note, "", nil, []tKV{{B("a"), B("old")}, {B("z"), B{}}}, h.bs)
 	}
 	for _, bm := range skipBombs() {
@@ -499,8 +516,27 @@ func c05tGen(tier string, rng *rand.Rand) []tCase {
 		nb[p] = byte(rng.Intn(256))
 		unp("mutated", fmt.Sprintf("byte %d changed", p), nb)
 		unp("truncated", "body cut (header not adjusted)", pk[:4+rng.Intn(len(body))])
+		for _, tag := range []int{10, 15, 16, 200} { // unknown members after the known ones (tags ascending)
+			if rng.Intn(2) == 0 {
+				unp("extra-field", fmt.Sprintf("valid response followed by an unknown member at tag %d", tag), c05Frame(cat(body, randField(rng, tag, 2))))
+			}
+		}
 		if sp, ok := walkTop(body); ok {
 			al := allSpans(sp)
+			for _, s := range al {
+				if s.LenAt >= 0 && s.LenSize == 4 {
+					for _, v := range []uint32{0xffffffff, 0x80000001, 0x7fffffff} {
+						nb := append([]byte(nil), body...)
+						binary.BigEndian.PutUint32(nb[s.LenAt:], v)
+						unp("hostile-strlen", fmt.Sprintf("STRING4 length at %d := %#x", s.LenAt, v), c05Frame(nb))
+					}
+				}
+				if s.LenAt >= 0 && s.LenSize == 1 && rng.Intn(4) == 0 {
+					nb := append([]byte(nil), body...)
+					nb[s.LenAt] = 0xff
+					unp("hostile-strlen", fmt.Sprintf("STRING1 length at %d := 255", s.LenAt), c05Frame(nb))
+				}
+			}
 			for _, k := range rng.Perm(len(al)) {
 				if s := al[k]; s.CountField != nil {
 					cf := *s.CountField
